@@ -324,7 +324,7 @@ func runC20(c *Ctx) {
 						okHost = true
 					}
 				}
-				if fn.Signature.Params().Len() == 1 && fn.Signature.Results().Len() == 0 && fn.Parent() != nil {
+				if fn.Signature.Params().Len() == 1 && fn.Signature.Results().Len() == 0 && (fn.Parent() != nil || !token.IsExported(fn.Name())) {
 					if n := core.NamedOf(fn.Signature.Params().At(0).Type()); n != nil && n.Obj().Name() == "PreparedStatement" {
 						okHost = true
 					}
@@ -335,25 +335,7 @@ func runC20(c *Ctx) {
 	}
 	R.Floor("C20.R4", "stores to the declared parameter list", nPW, 2)
 	if wp := c.mustFunc("C20.R4", "wire", "WithParameters"); wp != nil {
-		ok := false
-		for _, a := range wp.AnonFuncs {
-			for _, b := range a.Blocks {
-				for _, in := range b.Instrs {
-					if st, isSt := in.(*ssa.Store); isSt {
-						if fr, isF := core.FieldOfAddr(st.Addr); isF && fr.Is(pkWire, "PreparedStatement", "parameters") {
-							if fv, isFV := st.Val.(*ssa.FreeVar); isFV && fv.Name() == "parameters" {
-								ok = true
-							}
-							if u, isU := st.Val.(*ssa.UnOp); isU {
-								if fv, isFV := u.X.(*ssa.FreeVar); isFV && fv.Name() == "parameters" {
-									ok = true
-								}
-							}
-						}
-					}
-				}
-			}
-		}
+		ok := c.optionStoresArg(wp)
 		R.Check(ok, "C20.R4", "WithParameters:stores-list", c.atFn(wp), "the declared parameter list is stored in the prepared statement unchanged", "stmt.parameters = the option's argument", "WithParameters does not store its argument unchanged")
 	}
 	if set := c.P.Method("wire", "DefaultStatementCache", "Set"); set != nil {
@@ -374,4 +356,119 @@ func runC20(c *Ctx) {
 			R.Check(strings.HasSuffix(s.countPath[i], ".parameters"), "C20.R4", "handleDescribe:passes-declared-list", c.at(w), "Describe hands the statement's own parameter list to ParameterDescription", "writeParameterDescription(statement.parameters)", "the list passed is not statement.parameters")
 		}
 	}
+}
+
+// optionStoresArg: the option value WithParameters returns stores WithParameters' own argument, unchanged, into
+// PreparedStatement.parameters - as a closure over the argument, or as a method value of a type whose receiver is the
+// argument (parameterTypes(parameters).applyTo).
+func (c *Ctx) optionStoresArg(wp *ssa.Function) bool {
+	if len(wp.Params) == 0 {
+		return false
+	}
+	arg := ssa.Value(wp.Params[0])
+	strip := func(v ssa.Value) ssa.Value {
+		for {
+			switch x := v.(type) {
+			case *ssa.ChangeType:
+				v = x.X
+				continue
+			case *ssa.Convert:
+				if types.Identical(x.X.Type().Underlying(), x.Type().Underlying()) {
+					v = x.X
+					continue
+				}
+			}
+			return v
+		}
+	}
+	storesInto := func(fn *ssa.Function, isArg func(v ssa.Value) bool) bool {
+		found := false
+		for _, b := range fn.Blocks {
+			for _, in := range b.Instrs {
+				if st, isSt := in.(*ssa.Store); isSt {
+					if fr, isF := core.FieldOfAddr(st.Addr); isF && fr.Is(pkWire, "PreparedStatement", "parameters") {
+						if !isArg(strip(st.Val)) {
+							return false
+						}
+						found = true
+					}
+				}
+			}
+		}
+		return found
+	}
+	okAll, n := true, 0
+	for _, r := range returns(wp) {
+		if len(r.Results) != 1 {
+			return false
+		}
+		mc, isMC := strip(forwardLoad(r.Results[0])).(*ssa.MakeClosure)
+		if !isMC {
+			return false
+		}
+		fn, _ := mc.Fn.(*ssa.Function)
+		if fn == nil {
+			return false
+		}
+		n++
+		binding := func(i int) ssa.Value {
+			if i >= len(mc.Bindings) {
+				return nil
+			}
+			b := mc.Bindings[i]
+			if a, isAlloc := b.(*ssa.Alloc); isAlloc {
+				var val ssa.Value
+				cnt := 0
+				for _, ref := range core.Referrers(a) {
+					if st, isSt := ref.(*ssa.Store); isSt && st.Addr == ssa.Value(a) {
+						val = st.Val
+						cnt++
+					}
+				}
+				if cnt == 1 {
+					return val
+				}
+				return nil
+			}
+			return b
+		}
+		if fn.Synthetic != "" { // a bound method: the receiver is the binding, the method stores its receiver
+			recv := binding(0)
+			if recv == nil || strip(recv) != arg {
+				okAll = false
+				continue
+			}
+			var m *ssa.Function
+			for _, ci := range core.Calls(fn) {
+				if h := core.StaticCallee(ci); h != nil && c.P.InPkg(h, "wire") {
+					m = h
+				}
+			}
+			if m == nil || len(m.Params) == 0 || !storesInto(m, func(v ssa.Value) bool { return v == ssa.Value(m.Params[0]) }) {
+				okAll = false
+			}
+			continue
+		}
+		isArgFV := func(v ssa.Value) bool {
+			if u, isU := v.(*ssa.UnOp); isU {
+				v = u.X
+			}
+			fv, isFV := v.(*ssa.FreeVar)
+			if !isFV {
+				return false
+			}
+			for i, f := range fn.FreeVars {
+				if f == fv {
+					if b := binding(i); b != nil && strip(b) == arg {
+						return true
+					}
+				}
+			}
+			return false
+		}
+		if !storesInto(fn, isArgFV) {
+			okAll = false
+		}
+	}
+	return okAll && n > 0
 }
